@@ -44,7 +44,8 @@ class Runner:
         out = os.path.join(self.ctx.work, sub)
         os.makedirs(out, exist_ok=True)
         rc, log = common.sh([self.hb, "-seed", str(self.ctx.seed), "-tier", self.ctx.tier, "-out", out,
-                               "-tables", os.path.join(common.VERIF, "coq", GROUP, "Tables.v")] + extra, timeout=1500)
+                               "-tables", os.path.join(common.VERIF, "coq", GROUP, "Tables.v")] + extra,
+                            timeout=420 if self.ctx.tier == "quick" else 1200)
         if rc != 0:
             return None, [], [], {}, ["harness failed: " + log[-1500:]]
         meta = json.load(open(os.path.join(out, "meta.json")))
@@ -183,6 +184,8 @@ def run_property(ctx, pid, cmd, prop_file, level_extra, e2e=0):
             inner = os.path.join(ctx.work, "replay_in.json")
             json.dump(rp.get("replay", rp), open(inner, "w"))
             extra = ["-replay", inner]
+            if isinstance(rp.get("replay", rp), dict) and rp.get("replay", rp).get("mitm_h2_handoff"):
+                extra = ["-mitm"]
             if isinstance(rp.get("replay", rp), dict) and rp.get("replay", rp).get("e2e"):
                 extra += ["-e2e", "1"]   # the failure was seen in the end-to-end replay: play it there again
         if e2e and not ctx.replay:
@@ -220,6 +223,10 @@ def run_property(ctx, pid, cmd, prop_file, level_extra, e2e=0):
         ctx.violation("preface-correspondence", {"preface_reads": pcs[i]["preface_reads"],
                       "unchecked": "correspondence forward_preface(model)/forwardPreface"}, False,
                       "model and implementation of forwardPreface differ: %s" % json.dumps(pcs[i])[:300])
+    mh = meta.get("mitm_h2_handoff")
+    if mh is not None and not mh.get("ok"):
+        ctx.violation("mitm-h2-handoff/request-after-idle-not-relayed", {"mitm_h2_handoff": mh}, True,
+                      "through the real forwarder proxy (MITM, h2 relay enabled by the verif hook): %s" % mh.get("problem"))
     for r in (meta.get("e2e") or []):
         if not r.get("ok"):
             cj = next((c for c in cases if c.get("name") == r.get("name")), {})
@@ -259,6 +266,7 @@ def run_property(ctx, pid, cmd, prop_file, level_extra, e2e=0):
         "preface_segmentations": int(meta.get("preface_cases", 0)),
         "end_to_end_histories_through_Config_Proxy": int(meta.get("e2e_played", 0)),
         "end_to_end_failures": int(meta.get("e2e_failed", 0)),
+        "mitm_h2_handoff_scenario": meta.get("mitm_h2_handoff"),
         "end_to_end_stopped_at_map_order_difference": int(meta.get("e2e_stopped_at_map_order_difference", 0)),
         "histories": int(meta.get("cases", 0)),
         "distinct_nontrivial": nontriv,
